@@ -223,6 +223,7 @@ class Container(dict):
         """
         Used by pickle to de-serialize from a dict.
         """
+        self.__dict__ = self
         self.__class__.clear(self)
         self.__class__.update(self, state)
 
